@@ -411,3 +411,49 @@ def r8_let_chain(body, anchor, prefix, log, mut=False):
     new = lead_ws + ('\n' + indent).join(out) + stmt[len(stmt.rstrip()):]
     log.append(dict(rule='R8', before=norm_ws(stmt), after=norm_ws(new)))
     return body[:st] + new + body[en + (1 if has_semi else 0):], None
+
+
+def r10_byte_strings(text, log):
+    """R10: a byte-string literal b"..." becomes the reference to the array literal of its bytes,
+    &[b0u8, b1u8, ...] -- the same value of the same type &'static [u8; N] by the language definition.
+    Verus knows the length but not the contents of a byte-string literal."""
+    from .rustscan import code_mask, STRING
+    mask = code_mask(text)
+    out = []
+    i = 0
+    n = len(text)
+    while i < n:
+        if text[i] == 'b' and i + 1 < n and text[i + 1] == '"' and mask[i] == STRING and (i == 0 or mask[i - 1] != STRING):
+            j = i + 2
+            bs = []
+            ok = True
+            while j < n and text[j] != '"':
+                c = text[j]
+                if c == '\\':
+                    e = text[j + 1]
+                    simple = {'n': 10, 'r': 13, 't': 9, '\\': 92, '0': 0, '"': 34, "'": 39}
+                    if e in simple:
+                        bs.append(simple[e])
+                        j += 2
+                    elif e == 'x':
+                        bs.append(int(text[j + 2:j + 4], 16))
+                        j += 4
+                    else:
+                        ok = False
+                        break
+                else:
+                    if ord(c) > 127:
+                        ok = False
+                        break
+                    bs.append(ord(c))
+                    j += 1
+            if ok and j < n:
+                lit = text[i:j + 1]
+                new = '&[' + ', '.join('%du8' % b for b in bs) + ']'
+                log.append(dict(rule='R10', before=lit, after=new))
+                out.append(new)
+                i = j + 1
+                continue
+        out.append(text[i])
+        i += 1
+    return ''.join(out)
